@@ -60,6 +60,7 @@ def merge(a, b):
     out["tag_universe"] = tu
     out["assumptions"] = a.get("assumptions", []) + b.get("assumptions", [])
     out["rule"] = a.get("rule", "") + " || " + b.get("rule", "")
+    out["extra"] = dict(a.get("extra", {}), **b.get("extra", {}))
     out["wall_s"] = (a.get("wall_s") or 0) + (b.get("wall_s") or 0)
     out["cache_hit"] = a.get("cache_hit", False) and b.get("cache_hit", False)
     return out
@@ -163,6 +164,7 @@ def main():
             "drift": bool(drift),
             "drift_tags": sorted({x for t in drift for x in t["tags"] if x.startswith("STRICT_")})[:20],
             "known_findings_observed": sorted(known_hits.keys()),
+            "extra": res.get("extra", {}),
             "family": "+".join(fams), "family_cache_hit": res.get("cache_hit", False), "family_wall_s": res.get("wall_s"),
         },
         "assumptions": res.get("assumptions", []),
